@@ -203,7 +203,7 @@ class Real:
         if type(e) is FatalError:
             return ('Fatal', str(e))
         if type(e) is CancelledError:
-            return ('Cancelled', str(e))
+            return ('Cancelled', '')  # (no message is given by these operations: the text the library chooses is not compared)
         return ('?', repr(e))
 
     def observe(self):
@@ -352,8 +352,11 @@ def make_lockset_coordinator(violations):
 
         def __init__(self, *a, **k):
             super().__init__(*a, **k)
-            object.__setattr__(self, '_lock', OwnerLock())
-            object.__setattr__(self, '_vf_ready', True)
+            # (only where the coordinator guards its state with a plain lock kept under this name: a private detail, so when it is
+            # not there the lockset monitor simply does not apply - the behavioural comparison with the model is what decides)
+            if isinstance(self.__dict__.get('_lock'), type(threading.Lock())):
+                object.__setattr__(self, '_lock', OwnerLock())
+                object.__setattr__(self, '_vf_ready', True)
 
         def __setattr__(self, name, value):
             if self._vf_ready and name in ('_status', '_exception', '_result'):
